@@ -1,0 +1,11 @@
+//go:build verif
+
+// Verification hook: an exported wrapper around the unexported recursiveCheck.  Compiled only
+// with -tags verif; nothing here is used by the library itself.
+
+package css
+
+// VerifRecursiveCheck runs recursiveCheck on the given components and sub-handlers.
+func VerifRecursiveCheck(value []string, funcs []func(string) bool) bool {
+	return recursiveCheck(value, funcs)
+}
